@@ -15,11 +15,14 @@ import (
 	"context"
 	dsql "database/sql"
 	"fmt"
+	"io"
+	"log"
 	"strings"
 	"sync"
 	"time"
 
 	"github.com/cockroachdb/apd/v3"
+	"github.com/go-sql-driver/mysql"
 
 	"github.com/dolthub/go-mysql-server/sql"
 	"github.com/dolthub/go-mysql-server/sql/types"
@@ -29,6 +32,7 @@ import (
 )
 
 func main() {
+	_ = mysql.SetLogger(log.New(io.Discard, "", 0)) // the driver logs every dropped connection (known finding) to stderr
 	r := core.NewRun("C28", "exploration",
 		"an evaluation is one (type, stored value, channel) round trip: channel = Type.SQL text in-process, text protocol over TCP, binary prepared protocol over TCP; the received representation is converted back into the type and compared with the stored value; the in-process text is also measured against MaxTextResponseByteLength; distinct = (type, channel, value class, received Go type)")
 	r.Assume("stored values are produced by Type.Convert (in-process part) or INSERT (wire part) from generated raw values; what was stored is read back in-process and is the reference, so storage conversion (C27) is not judged here")
@@ -43,6 +47,7 @@ func main() {
 		cat = append(cat, s)
 	}
 	r.Assume("SET types with '' as a member are excluded: their text form is not injective by construction ({''} and {} both print as ''), also in MySQL")
+	r.Assume("byte strings that are not valid UTF-8 are not used as stored values: utf8mb4 columns reject them, single-byte character sets read them as non-ASCII text, which C27's known finding non-ascii-text-in-single-byte-charset (length measured in UTF-8 bytes) keeps out of the core domain")
 	inProcess(r, cat)
 	overTheWire(r, cat)
 	pinned(r)
@@ -163,12 +168,19 @@ func backInto(ctx *sql.Context, s *g1lib.Spec, t sql.Type, received any, stored 
 	if b, ok := received.([]byte); ok && s.Kind != "binary" && s.Kind != "bit" {
 		in = string(b)
 	}
-	c := guard(func() (any, error) { v, _, err := t.Convert(ctx, in); return v, err })
+	rng := sql.InRange
+	c := guard(func() (any, error) { v, ir, err := t.Convert(ctx, in); rng = ir; return v, err })
 	if c.pan != nil {
 		return c.pan.Sig(), map[string]any{"panic": c.pan.Value}
 	}
 	if c.err != nil {
 		return "not-accepted-back", map[string]any{"convert_error": c.err.Error()}
+	}
+	if rng != sql.InRange && s.Kind == "int" {
+		// the representation denotes a value outside the type and Convert wrapped it back (an int64 read without the
+		// unsigned flag wraps to the original bits): not a faithful representation. Only for integers: for FLOAT the
+		// shortest text of +-MaxFloat32 parses to a double just above MaxFloat32 and is clamped back to the same value.
+		return "out-of-range-back", map[string]any{"converted_back": g1lib.Show(c.v), "in_range_flag": int(rng)}
 	}
 	k := guard(func() (any, error) { x, err := t.Compare(ctx, c.v, stored); return x, err })
 	if k.pan != nil {
@@ -212,7 +224,7 @@ func inProcess(r *core.Run, cat []*g1lib.Spec) {
 		var rts, lens int64
 		for n := 0; n < 12; n++ {
 			rw := g1lib.Gen(s, rnd)
-			if rw.Accept < 0 {
+			if rw.Accept < 0 || rw.Class == "invalid-utf8" {
 				continue
 			}
 			st := guard(func() (any, error) { v, _, err := s.T.Convert(ctx, rw.V); return v, err })
@@ -303,7 +315,7 @@ func overTheWire(r *core.Run, cat []*g1lib.Spec) {
 		id := 0
 		for tries := 0; tries < 50 && id < 11; tries++ {
 			rw := g1lib.Gen(s, rnd)
-			if rw.Lit == "" || rw.Accept < 0 {
+			if rw.Lit == "" || rw.Accept < 0 || rw.Class == "invalid-utf8" {
 				continue
 			}
 			q := fmt.Sprintf("INSERT INTO %s VALUES (%d, %s)", tbl, id, rw.Lit)
